@@ -1062,6 +1062,12 @@ impl<'a> CompactionIterator<'a> {
 		// Set while walking from newest to oldest once a REPLACE has been passed;
 		// versions newer than the REPLACE are ordinary versions.
 		let mut older_than_replace = false;
+		// Same for a hard DELETE: it erases every older version for good. Versions
+		// below a hard DELETE that stays in the output remain masked by it; they
+		// only have to go when the DELETE itself is dropped.
+		let mut older_than_dropped_hard_delete = false;
+		// A hard DELETE or REPLACE newer than the current version exists.
+		let mut newer_barrier_seen = false;
 
 		// Track the visibility of the previous (newer) version we processed.
 		// Used to detect when a newer version supersedes an older one.
@@ -1145,7 +1151,20 @@ impl<'a> CompactionIterator<'a> {
 				// Latest REPLACE: not stale (will be output)
 				false
 			} else if is_hard_delete {
-				// Older DELETE: always stale (only latest tombstone matters)
+				// Older DELETE. Without versioning only the latest version matters.
+				// With versioning it is the barrier that erases everything older:
+				// the versions below it in THIS compaction go with it (see
+				// `older_than_hard_delete`), but older versions of the key may also
+				// sit in tables below the target level, which this compaction does
+				// not see - so the barrier itself has to survive until the bottom
+				// level (and there, until no snapshot older than it is left).
+				// (A newer barrier makes this one redundant.)
+				!self.enable_versioning
+					|| newer_barrier_seen
+					|| (self.is_bottom_level
+						&& self.snapshots.first().is_none_or(|&oldest| oldest >= seq_num))
+			} else if older_than_dropped_hard_delete {
+				// A newer hard DELETE erased this version
 				true
 			} else if older_than_replace {
 				// A newer REPLACE erased this version
@@ -1196,6 +1215,12 @@ impl<'a> CompactionIterator<'a> {
 			newer_version_visibility = Some(current_visibility);
 			if is_replace {
 				older_than_replace = true;
+			}
+			if is_hard_delete && should_mark_stale {
+				older_than_dropped_hard_delete = true;
+			}
+			if is_hard_delete || is_replace {
+				newer_barrier_seen = true;
 			}
 		}
 
